@@ -124,7 +124,49 @@ RULE = ("random reductions: norm^2 (Gram/autograd branch exact, QR branch and sq
         "subsets), sum (all / every kind of subset), TT-matrix norm and sums, bilinear forms; order 1..5, singleton modes, rank profiles up to 3, zero "
         "tensors, float64/complex128 (Gaussian-integer cores so conjugation matters)/float32; non-trivial = interior rank > 1; distinct = (structure, dtype)")
 
+def _norm_block(V, rng, tier):
+    """(a) norms that come from cancellation: ||x - y|| with y = x + 1e-9 z, stored in the (non-minimal) cores of the difference - the QR sweep
+    keeps the absolute accuracy 1e-13 (||x|| + ||y||), a Gram chain does not; (b) a core edited in place between two norm() calls (the idiom of the
+    library's own AD example): the second value is the norm of the object as it is now"""
+    import torch, torchtt
+    dist = {}
+    nb = 16 if tier == "quick" else 160
+    for j in range(nb):
+        cplx = j % 4 == 1; ttm = j % 4 == 2
+        d = [1, 2, 2, 3, 4, 2, 1, 3][j % 8]
+        x = gen_ttm(rng, cplx, d=d) if ttm else gen_tt(rng, cplx, d=d)
+        dt = torch.complex128 if cplx else torch.float64
+        xt = x.impl([], dt)
+        z = (gen_ttm(rng, cplx, d=d) if ttm else gen_tt(rng, cplx, d=d)).impl([], dt)
+        if list(z.N) != list(xt.N) or (ttm and list(z.M) != list(xt.M)):
+            z = torchtt.TT([torch.ones_like(c[:1, ..., :1]) for c in xt.cores])
+        desc = {"norm_block": True, "ttm": ttm, "complex": cplx, "N": [int(v) for v in xt.N], "R": [int(v) for v in xt.R]}
+        try:
+            y = xt + 1e-9 * z
+            dlt = xt - y
+            ref = float((xt.full() - y.full()).abs().pow(2).sum().sqrt())
+            scale = float(xt.full().abs().pow(2).sum().sqrt() + y.full().abs().pow(2).sum().sqrt())
+            for nm, got, want in (("norm()", float(torch.real(dlt.norm())), ref), ("norm(squared=True)", float(torch.real(dlt.norm(True))), ref * ref)):
+                tol = 1e-13 * scale if nm == "norm()" else 1e-13 * scale * max(ref, 1e-13 * scale)
+                if not abs(got - want) <= tol + 1e-300: V.fail("cancellation: %s of a small difference is off beyond the accuracy of the QR sweep" % nm, dict(desc, got=got, dense=want, scale=scale))
+            dist["cancellation"] = dist.get("cancellation", 0) + 1
+            # in-place edit between two norms
+            w = torchtt.TT([c.clone() for c in xt.cores])
+            n1 = float(torch.real(w.norm()))
+            k = rng.randrange(len(w.cores)); edit = ["+=", "*=", "zero_", "slice"][j % 4]
+            if edit == "+=": w.cores[k][(0,) * w.cores[k].dim()] += 3.0
+            elif edit == "*=": w.cores[k] *= 2.0
+            elif edit == "zero_": w.cores[k].zero_()
+            else: w.cores[k][..., 0] = 1.0
+            for sq in (False, True):
+                got = float(torch.real(w.norm(sq))); want = float(w.full().abs().pow(2).sum().sqrt()); want = want * want if sq else want
+                if not abs(got - want) <= 1e-12 * max(1.0, abs(want)): V.fail("norm(%s) after an in-place edit of a core (%s) is not the norm of the object as it is now" % ("squared" if sq else "", edit), dict(desc, got=got, dense=want, first=n1))
+            dist["in-place edit: " + edit] = dist.get("in-place edit: " + edit, 0) + 1
+        except Exception as ex:
+            V.fail("norm block raises %s" % type(ex).__name__, dict(desc, exc=str(ex)[:200]))
+    return {"norm_cancellation_and_in_place_cases": dist}
+
 def run(tier, seed, replay=None):
     import torch
     dtypes = [(torch.float64, coqrun.Z), (torch.complex128, coqrun.ZI), (torch.complex128, coqrun.ZI), (torch.float32, coqrun.Z)]
-    return exprcheck.run(PID, tier, seed, gen_case, 400, 6000, RULE, nontrivial, dtypes, evaluate=evaluate)
+    return exprcheck.run(PID, tier, seed, gen_case, 400, 6000, RULE, nontrivial, dtypes, evaluate=evaluate, post=_norm_block)
